@@ -105,6 +105,9 @@ pub trait Prop: Sync + Send {
     fn execute(&self, case: &Value, env: &WorkerEnv) -> Outcome;
     /// simpler candidate cases, most aggressive first
     fn shrink(&self, case: &Value) -> Vec<Value>;
+    /// called once on the worker's main thread before any run: build lazily initialised tables here, never
+    /// inside a run's thread (it would shift that thread's hash-key counter)
+    fn warm_up(&self) {}
     /// does (case, class, detail) fall under the known finding named `matcher`?
     fn known_match(&self, _matcher: &str, _case: &Value, _class: &str, _detail: &str) -> bool {
         false
